@@ -212,6 +212,38 @@ pub struct PendingRequest {
     pub sent_step: u32,
     /// for submit-with-stream: the client stays in streaming mode afterwards
     pub stream: bool,
+    /// for cancel / close / forget: which jobs the request selects (and the status filter)
+    pub sel: Option<(Sel, Vec<hyperqueue::client::status::Status>)>,
+}
+
+/// Job selector of a request, in comparable form
+#[derive(Debug, Clone, PartialEq)]
+pub enum Sel {
+    All,
+    LastN(u32),
+    Specific(Vec<u32>),
+}
+
+impl Sel {
+    pub fn resolve(&self, existing: &[u32]) -> std::collections::BTreeSet<u32> {
+        match self {
+            Sel::All => existing.iter().copied().collect(),
+            Sel::LastN(n) => {
+                let mut v = existing.to_vec();
+                v.sort_unstable();
+                v.into_iter().rev().take(*n as usize).collect()
+            }
+            Sel::Specific(ids) => ids.iter().copied().collect(),
+        }
+    }
+    pub fn to_selector(&self) -> hyperqueue::transfer::messages::IdSelector {
+        use hyperqueue::transfer::messages::IdSelector;
+        match self {
+            Sel::All => IdSelector::All,
+            Sel::LastN(n) => IdSelector::LastN(*n),
+            Sel::Specific(ids) => IdSelector::Specific(super::palette::int_array(ids)),
+        }
+    }
 }
 
 pub struct ClientSim {
@@ -259,6 +291,11 @@ pub struct World {
     pub sched_cfg: (u32, u32),
     pub server_uid: String,
     pub epoch: u32,
+    /// allocation queues whose life-cycle records the harness emits (no autoalloc process runs):
+    /// next queue id, live queues with their allocation ids, allocation counter
+    pub queue_counter: u32,
+    pub sim_queues: BTreeMap<u32, Vec<String>>,
+    pub alloc_counter: u32,
     _autoalloc_fut: Pin<Box<dyn Future<Output = ()>>>,
 }
 
@@ -286,6 +323,8 @@ pub struct RestoreInfo {
     pub server_uid: String,
     pub n_task_submits: usize,
     pub queues: Vec<u32>,
+    /// (queue id, parameters as JSON, worker resources as JSON)
+    pub queue_details: Vec<(u32, String, Option<String>)>,
     pub submitted_tasks: Vec<(TaskId, Vec<TaskId>, u32, u32)>,
 }
 
@@ -395,12 +434,25 @@ impl World {
                 server_uid: loaded.server_uid.clone(),
                 n_task_submits: 0,
                 queues: Vec::new(),
+                queue_details: Vec::new(),
                 submitted_tasks: Vec::new(),
             };
             let (submits, queues) = hqv::restore_state(loaded, &state_ref, &server_ref)
                 .map_err(|e| format!("restore_state: {e:?}"))?;
             info.n_task_submits = submits.len();
             info.queues = queues.iter().map(|q| q.queue_id).collect();
+            info.queue_details = queues
+                .iter()
+                .map(|q| {
+                    (
+                        q.queue_id,
+                        serde_json::to_string(&q.params).unwrap_or_default(),
+                        q.worker_resources
+                            .as_ref()
+                            .map(|r| serde_json::to_string(r).unwrap_or_default()),
+                    )
+                })
+                .collect();
             for s in submits {
                 for t in &s.tasks {
                     let (inst, cc) = s
@@ -449,6 +501,12 @@ impl World {
             sched_cfg: params.prefill.unwrap_or((16, 40)),
             server_uid,
             epoch,
+            queue_counter: queue_id_init,
+            sim_queues: restore_info
+                .as_ref()
+                .map(|i: &RestoreInfo| i.queues.iter().map(|q| (*q, Vec::new())).collect())
+                .unwrap_or_default(),
+            alloc_counter: epoch * 1000,
             _autoalloc_fut: Box::pin(autoalloc_fut),
         };
         Ok((world, restore_info))
@@ -698,7 +756,22 @@ impl World {
             kind: kind.to_string(),
             sent_step: step,
             stream,
+            sel: None,
         });
+    }
+
+    pub fn send_request_sel(
+        &mut self,
+        c: usize,
+        msg: FromClientMessage,
+        kind: &str,
+        sel: Sel,
+        filter: Vec<hyperqueue::client::status::Status>,
+    ) {
+        self.send_request(c, msg, kind, false);
+        if let Some(p) = self.clients[c].pending.as_mut() {
+            p.sel = Some((sel, filter));
+        }
     }
 
     /// Poll the server side of the connection once and collect what the client received.
